@@ -102,18 +102,18 @@ class MultiBinaryAction(AbstractActionDistribution[Int[Array, ""], None]):
 
 class MultiDiscreteAction(AbstractActionDistribution[Int[Array, ""], None]):
     ns: tuple[int, ...]
-    mappings: eqx.nn.Linear
+    mapping: eqx.nn.Linear
     shape: tuple[int, ...]
 
     def __init__(
         self, latent_dim: int, action_space: MultiDiscrete, *, key: Key[Array, ""]
     ):
         self.ns = action_space.nvec
-        self.mappings = eqx.nn.Linear(latent_dim, sum(action_space.nvec), key=key)
+        self.mapping = eqx.nn.Linear(latent_dim, sum(action_space.nvec), key=key)
         self.shape = action_space.shape
 
     def __call__(self, inputs: Float[Array, " latent_dim"]) -> MultiCategorical:
-        return MultiCategorical(self.mappings(inputs), action_dims=self.ns)
+        return MultiCategorical(self.mapping(inputs), action_dims=self.ns)
 
 
 @overload
